@@ -224,7 +224,8 @@ func c15R1(c *Ctx) {
 					if t == nil {
 						continue
 					}
-					if t.IsCall(".VerifyAudience") && t.Args[1].Mentions(func(s *Term) bool { return s.IsCall(".GetTokenURLs") }) {
+					// required form only: VerifyAudience(url, false) is true for an assertion without aud
+					if t.IsCall(".VerifyAudience") && len(t.Args) == 3 && t.Args[2].Key() == tTrue.Key() && t.Args[1].Mentions(func(s *Term) bool { return s.IsCall(".GetTokenURLs") }) {
 						audOK = true
 					}
 					if t.Op == "idx" && t.Args[0].IsCall(".GetTokenURLs") && f.Atom.Kind == "EQ" {
